@@ -24,4 +24,7 @@ def units(tier):
 
 
 def runner_tasks(tier):
-    return []
+    return [{"module": "c04", "task": "relations", "kind": "bounded", "clause": "all relations and output shapes, in floats"}]
+
+
+REPLAY = {'module': 'c04', 'task': 'replay'}
